@@ -19,4 +19,33 @@ AllVars == {"x", "y", "n", "m"}
 Unavail(p) == IF p % 2 = 0 THEN {"y"} ELSE {"n"}
 AvOf(p) == AllVars \ Unavail(p)
 
+(***************************************************************************)
+(* Event mode (ConcEvents.tla, JudgeConc.tla): one chunk of process p on   *)
+(* the event-mode program L -- from where it is parked (before a step that *)
+(* performs a fetch or a registered-operator call, or at its start) to     *)
+(* where it parks next.                                                    *)
+(***************************************************************************)
+StepE(L, p, st) == EvalNext(L, EnvOf(p), st, TRUE, TRUE)
+Effectful(L, p, st) == st.st = "run" /\ Len(StepE(L, p, st).eff) > Len(st.eff)
+RECURSIVE Park(_, _, _)
+Park(L, p, st) == IF st.st # "run" \/ Effectful(L, p, st) THEN st ELSE Park(L, p, StepE(L, p, st))
+\* [one |-> state after the pending effectful step (or cur at the start), nxt |-> parked again]
+Chunk(L, p, cur) ==
+  LET one == IF Effectful(L, p, cur) THEN StepE(L, p, cur) ELSE cur IN [one |-> one, nxt |-> Park(L, p, one)]
+
+SameEvent(a, b) ==
+  /\ a.k = b.k
+  /\ a.k = "loop" => (a.pos = b.pos /\ Len(a.stack) = Len(b.stack) /\ \A i \in 1..Len(a.stack) : VEq(a.stack[i], b.stack[i]))
+  /\ a.k = "op" => (a.n = b.n /\ Len(a.ps) = Len(b.ps) /\ (\A i \in 1..Len(a.ps) : VEq(a.ps[i], b.ps[i])) /\ OutcomeEq(a.r, b.r))
+SameEvents(a, b) == Len(a) = Len(b) /\ \A i \in 1..Len(a) : SameEvent(a[i], b[i])
+\* c is an interleaving of a and b (dynamic programming over pairs of prefixes)
+IsShuffle(a, b, c) ==
+  /\ Len(c) = Len(a) + Len(b)
+  /\ LET ok[i \in 0..Len(a), j \in 0..Len(b)] ==
+           IF i = 0 /\ j = 0 THEN TRUE
+           ELSE (i > 0 /\ SameEvent(a[i], c[i + j]) /\ ok[i - 1, j]) \/ (j > 0 /\ SameEvent(b[j], c[i + j]) /\ ok[i, j - 1])
+     IN ok[Len(a), Len(b)]
+EvProgIdx == {1, 2, 4}
+EvLayout(i) == AddEvents(Layout(Optimize(Progs[i], MaskOf(i), DefaultCfg)))
+
 =============================================================================
